@@ -59,10 +59,12 @@ WmwfOK(phin, a, sigma, mu, w, ref) ==
 Rayleigh(phix, phin, v) == <<QuadS(phix, v)[1][1], QuadS(phin, v)[1][1]>>     \* <<num, den>> real parts
 GevOK(phix, phin, w) ==
   LET xv == MatVecS(phix, w) nv == MatVecS(phin, w) r == Rayleigh(phix, phin, w)
+      \* residual measured against the whole vector (backward error of an eigenpair): a component that is exactly zero
+      \* in exact arithmetic comes back as ~1e-17 from LAPACK and must not be judged relative to itself
+      whole == FSum([d \in 1..Len(w) |-> FAdd(FMul(FAbs(r[2]), xv[d][2]), FMul(FAbs(r[1]), nv[d][2]))])
   IN  /\ FSgn(r[2]) > 0
       \* den * (Phi_xx w)_d = num * (Phi_nn w)_d
-      /\ \A d \in 1..Len(w) : ZClose(ZScale(r[2], xv[d][1]), ZScale(r[1], nv[d][1]),
-                                      FAdd(FMul(FAbs(r[2]), xv[d][2]), FMul(FAbs(r[1]), nv[d][2])), SLK)
+      /\ \A d \in 1..Len(w) : ZClose(ZScale(r[2], xv[d][1]), ZScale(r[1], nv[d][1]), whole, SLK)
 \* probe p clearly better than w:  num_p den_w > num_w den_p even with pessimistic bounds
 GevMaximal(phix, phin, w, p) ==
   LET xw == QuadS(phix, w) nw == QuadS(phin, w) xp == QuadS(phix, p) np == QuadS(phin, p)
